@@ -245,6 +245,25 @@ def free_race_scripts(name0):
     return out, n
 
 
+def lock_crash_scripts(name0):
+    """a process is killed while it holds the segment lock (as creator or as opener, with a second handle around or not); after the documented
+    clean-up the next p_shm_new makes a fresh segment whose lock is free"""
+    out = []
+    n = name0
+    for who in ("creator", "opener", "owner-opener"):
+        n += 1
+        lines = ["P 1 shmnew 1 %d 512" % n, "P 2 shmnew 1 %d 512" % n]
+        p = 1 if who == "creator" else 2
+        if who == "owner-opener":
+            lines.append("P 2 shmown 1")
+        lines += ["P %d shmlock 1" % p, "P %d shmw 1 5 77" % p, "K %d" % p, "K %d" % (3 - p),
+                  "P 3 shmnew 1 %d 512" % n, "P 3 shmown 1", "P 3 shmfree 1",
+                  "P 3 shmnew 1 %d 2048" % n, "P 3 shmsize 1", "P 3 shmr 1 5", "A 3 shmlock 1", "W 3", "P 3 shmw 1 2047 3", "P 3 shmunlock 1",
+                  "P 1 shmnew 2 %d 0" % n, "A 1 shmlock 2", "W 1", "P 1 shmr 2 2047", "P 1 shmunlock 2", "P 1 shmfree 2", "P 3 shmfree 1", "obs", "epoch"]
+        out.append(lines)
+    return out, n
+
+
 def free_crash_scripts(name0):
     out = []
     n = name0
@@ -298,6 +317,9 @@ def run(ctx):
     fcr, nmax = failing_creation_scripts(nmax)
     for lines in fcr:
         scripts.append(("failcreate", lines, []))
+    lcs, nmax = lock_crash_scripts(nmax)
+    for lines in lcs:
+        scripts.append(("lockcrash", lines, []))
     frs, nmax = free_race_scripts(nmax)
     for lines in frs:
         scripts.append(("freerace", lines, []))
